@@ -936,6 +936,7 @@ func main() {
 	writeSlot(t, *out)
 	writeMergeMM(t, *out)
 	writeChanHelpers(t, *out)
+	writeAccept(t, *out)
 	if err := os.MkdirAll(*out, 0o755); err != nil {
 		fmt.Fprintln(os.Stderr, err)
 		os.Exit(2)
